@@ -487,7 +487,7 @@ def run(ctx):
 
     # ---- 2. replay of exported transitions ----
     events = []          # (event, info, combo) for trace validation
-    per_case = 1 if quick else 6
+    per_case = 1 if quick else 3
     for prof in 'RCI':
         cb = combos(prof, ctx.seed)
         counters = {}
@@ -537,7 +537,7 @@ def run(ctx):
 
     # ---- 3. random driver ----
     rnd = random.Random(ctx.seed * 7919 + 13)
-    nep = 150 if quick else 1500
+    nep = 150 if quick else 800
     tid = 0
     for _ in range(nep):
         tid += 1
